@@ -7,7 +7,14 @@ probe program generated on the recycled objects - error code of every call, sect
 relocated image - with the same program generated on fresh objects in the canonical configuration. This module shards
 the histories, perturbs the allocator per shard, attributes sanitizer aborts / hangs / leaks to single histories,
 has every alarm delta-debugged by the driver (`--shrink`) so that the key is the MINIMAL history, cross-checks the
-canonical outputs between processes (different heap layouts, ASLR, allocator fill bytes) and merges the evidence."""
+canonical outputs between processes (different heap layouts, ASLR, allocator fill bytes) and merges the evidence.
+
+Address independence: ASan's allocator puts every section buffer on a 64-byte boundary, which hides any dependence of the
+output on the buffer address. So (a) ASan shards run with max_redzone 16 / 32 / default (buffers at 16 / 32 / 0 mod 64; seen by
+the cross-process comparison) and (b) the same driver is also built PLAIN (glibc malloc, 16-byte granules) and runs as many
+further histories: there the driver perturbs the heap from the case RNG before every history / fresh control / twin and steers
+each control onto another residue than the run it is compared with. The residues observed are part of the evidence; a run in
+which no variation at all was achieved is inconclusive (exit 2)."""
 import json
 import os
 import re
@@ -17,18 +24,23 @@ from vlib import build, common
 JOB_HISTORIES = {"quick": 125, "thorough": 2500}
 TOTAL = {"quick": 24000, "thorough": 1200000}
 MAX_SHRINKS = {"quick": 72, "thorough": 200}
+MAX_CROSS_REPORTS = 24
 CHUNK = 125
 
 
-def asan_env(fill):
+def asan_env(fill, rz=0):
     """Allocator perturbation of one shard: fresh heap memory is filled with `fill`, freed memory with ~fill.
-    (MALLOC_PERTURB_ is what glibc would honour; under ASan the allocator is ASan's, so its own knobs are set too.)"""
+    (MALLOC_PERTURB_ is what glibc honours - the plain build; under ASan the allocator is ASan's, so its own knobs are set too.)
+    rz = 16 / 32: ASan's redzone is capped at that size, which puts every large block (section buffers) at rz mod 64."""
     base = common.SAN_ENV["ASAN_OPTIONS"]
     return {
-        "ASAN_OPTIONS": "%s:malloc_fill_byte=%d:max_malloc_fill_size=262144:free_fill_byte=%d:max_free_fill_size=262144"
-                        % (base, fill, (~fill) & 0xFF),
+        "ASAN_OPTIONS": "%s:malloc_fill_byte=%d:max_malloc_fill_size=262144:free_fill_byte=%d:max_free_fill_size=262144%s"
+                        % (base, fill, (~fill) & 0xFF, ":max_redzone=%d" % rz if rz else ""),
         "MALLOC_PERTURB_": str(fill or 1),
     }
+
+
+REDZONES = [0, 16, 0, 32, 0, 0]
 
 
 def make_jobs(tier, seed, scale):
@@ -41,7 +53,15 @@ def make_jobs(tier, seed, scale):
     while first < total:
         n = min(per, total - first)
         fill = [0x00, 0xFF, 0xA5, 0x5A, 0x01, 0x80, 0xCC, 0x7F][len(jobs) % 8] if len(jobs) % 3 else rng.below(256)
-        jobs.append({"argv": ["--seed", str(dseed), "--first", str(first), "--histories", str(n)], "fill": fill})
+        jobs.append({"argv": ["--seed", str(dseed), "--first", str(first), "--histories", str(n)], "fill": fill,
+                     "flavour": "asan", "rz": REDZONES[len(jobs) % len(REDZONES)]})
+        first += n
+    # the plain (glibc malloc) build runs as many FURTHER histories (it is several times faster)
+    per_plain = per * 4 if tier == "quick" else per
+    while first < 2 * total:
+        n = min(per_plain, 2 * total - first)
+        jobs.append({"argv": ["--seed", str(dseed), "--first", str(first), "--histories", str(n)], "fill": rng.below(256),
+                     "flavour": "plain", "rz": 0})
         first += n
     return jobs
 
@@ -69,13 +89,14 @@ def last_history(err):
 
 def run(tier, args):
     chk = common.Check("C16", tier)
-    exe = build.build_driver("drv_reuse", "asan")
+    exes = {"asan": build.build_driver("drv_reuse", "asan"), "plain": build.build_driver("drv_reuse", "plain")}
 
-    def drv(argv, fill, timeout=3000):
-        return common.run_child([exe] + argv, timeout=timeout, env=asan_env(fill))
+    def drv(argv, cfg, timeout=3000):
+        """cfg: fill byte, flavour (asan / plain), rz (ASan redzone cap) of the shard the history belongs to."""
+        return common.run_child([exes[cfg.get("flavour", "asan")]] + argv, timeout=timeout, env=asan_env(cfg.get("fill", 0), cfg.get("rz", 0)))
 
-    def shrink(seed_arg, idx, fill, target=None):
-        rc, out, err = drv(["--seed", seed_arg, "--only", str(idx), "--shrink"] + (["--target", target] if target else []), fill, timeout=3000)
+    def shrink(seed_arg, idx, cfg, target=None):
+        rc, out, err = drv(["--seed", seed_arg, "--only", str(idx), "--shrink"] + (["--target", target] if target else []), cfg, timeout=3000)
         try:
             return json.loads(out.decode().strip().splitlines()[-1])
         except Exception:
@@ -84,7 +105,7 @@ def run(tier, args):
     if args.replay:
         rp = json.load(open(args.replay))
         case = rp["case"]
-        res = shrink(case["seed"], case["idx"], case.get("fill", 0), case.get("target"))
+        res = shrink(case["seed"], case["idx"], case, case.get("target"))
         if res is None:
             raise common.HarnessError("replay: driver produced no shrink result")
         if res["cls"] != "none":
@@ -106,7 +127,7 @@ def run(tier, args):
         budget = 64          # sanitizer aborts tolerated per shard before the rest of it is given up (reported as a note)
         while cur < end:
             stop = min(end, cur + CHUNK)
-            rc, out, err = drv(["--seed", seed_arg, "--first", str(cur), "--histories", str(stop - cur)], job["fill"])
+            rc, out, err = drv(["--seed", seed_arg, "--first", str(cur), "--histories", str(stop - cur)], job)
             res = None
             try:
                 res = json.loads(out.decode().strip().splitlines()[-1])
@@ -125,7 +146,7 @@ def run(tier, args):
             crashes.append({"idx": idx, "rc": rc, "report": rep, "tail": re.sub(r"@h \d+\n", "", err[-3000:].decode("utf-8", "replace"))})
             # the histories before the dead one were executed but their summary is lost: rerun them alone (cheap)
             if idx > cur:
-                rc2, out2, err2 = drv(["--seed", seed_arg, "--first", str(cur), "--histories", str(idx - cur)], job["fill"])
+                rc2, out2, err2 = drv(["--seed", seed_arg, "--first", str(cur), "--histories", str(idx - cur)], job)
                 try:
                     summaries.append(json.loads(out2.decode().strip().splitlines()[-1]))
                 except Exception:
@@ -142,17 +163,33 @@ def run(tier, args):
     # ---- merge -------------------------------------------------------------------------------------------
     tot = {"histories": 0, "probes": 0, "nontrivial": 0, "fresh_runs": 0, "leak_checks": 0, "cleans": 0, "cleans_with_leftover": 0,
            "probe_programs_with_errors": 0, "expected_api_errors": 0, "nondet_checks": 0, "state_checks": 0}
-    dicts = {"steps": {}, "probes_by": {}, "progs_probed": {}, "leftover_at_clean": {}, "perturb": {}, "static_sizes": {}}
+    dicts = {"steps": {}, "probes_by": {}, "progs_probed": {}, "leftover_at_clean": {}, "perturb": {}, "static_sizes": {},
+             "addr": {}, "aligns": {}, "pools": {}, "new_const": {}}
+    residues = {}        # allocator -> which run (recycled / fresh / twin) -> residue mod 64 -> compared runs
+    by_alloc = {}        # allocator -> histories, pairs with different residue
     sigs = set()
     samples = []
     canon = {}
     canon_compared = 0
+    canon_compared_other_alloc = 0
+    cross_diff = 0
     alarms = []          # (prelim key, seed_arg, idx, fill, what, target id for the shrinker)
     leak_ranges = []
     for job, seed_arg, summaries, crashes in results:
+        cfg = {"fill": job["fill"], "flavour": job["flavour"], "rz": job["rz"]}
         for res in summaries:
             for k in tot:
                 tot[k] += res.get(k, 0)
+            alloc = res.get("allocator", "?") + ("/max_redzone=%d" % job["rz"] if job["rz"] else "")
+            for which in ("res_recycled", "res_fresh", "res_twin"):
+                for r64, n in res.get(which, {}).items():
+                    d = residues.setdefault(alloc, {}).setdefault(which[4:], {})
+                    d[int(r64)] = d.get(int(r64), 0) + n
+            ba = by_alloc.setdefault(alloc, {"histories": 0, "probes": 0, "pairs_different_residue": 0, "twins_different_residue": 0})
+            ba["histories"] += res.get("histories", 0)
+            ba["probes"] += res.get("probes", 0)
+            ba["pairs_different_residue"] += res.get("addr", {}).get("pairs_different_residue", 0)
+            ba["twins_different_residue"] += res.get("addr", {}).get("twins_different_residue", 0)
             for name in dicts:
                 for k, v in res.get(name, {}).items():
                     if isinstance(v, list):
@@ -167,18 +204,22 @@ def run(tier, args):
             for k, h in res.get("canon", {}).items():
                 if k in canon:
                     canon_compared += 1
-                    if canon[k] != h:
+                    if canon[k][1] != alloc:
+                        canon_compared_other_alloc += 1
+                    if canon[k][0] != h:
+                        cross_diff += 1
+                    if canon[k][0] != h and cross_diff <= MAX_CROSS_REPORTS:
                         chk.violation("cross-process:" + "/".join(p for p in k.split("/") if not re.match(r"s\d+$", p)),
                                       "fresh generation of %s gives different output in two processes (heap layout / ASLR / "
-                                      "allocator fill byte): %s vs %s" % (k, canon[k], h),
-                                      {"seed": seed_arg, "idx": 0, "fill": job["fill"], "note": "cross-process " + k})
+                                      "allocator fill byte / allocator: %s vs %s): %s vs %s" % (k, canon[k][1], alloc, canon[k][0], h),
+                                      dict(cfg, seed=seed_arg, idx=0, note="cross-process " + k))
                 else:
-                    canon[k] = h
+                    canon[k] = (h, alloc)
             for v in res["violations"]:
                 if v["cls"] == "leak":
-                    leak_ranges.append((seed_arg, v["range"], job["fill"]))
+                    leak_ranges.append((seed_arg, v["range"], cfg))
                 else:
-                    alarms.append((v["key"], seed_arg, v["idx"], job["fill"], v["what"] + " | history: " + v["history"], v["id"]))
+                    alarms.append((v["key"], seed_arg, v["idx"], cfg, v["what"] + " | history: " + v["history"], v["id"]))
         for c in crashes:
             if c["idx"] < 0:
                 chk.note(c["tail"])
@@ -192,12 +233,15 @@ def run(tier, args):
                 key, what = "hang", "history did not finish (SIGALRM watchdog inside the driver)"
             else:
                 key, what = "crash:rc=%s" % c["rc"], c["tail"][-300:]
-            alarms.append((key, seed_arg, c["idx"], job["fill"], what, "hang" if key == "hang" else "sanitizer"))
+            alarms.append((key, seed_arg, c["idx"], cfg, what, "hang" if key == "hang" else "sanitizer"))
+
+    if cross_diff > MAX_CROSS_REPORTS:
+        chk.note("%d canonical outputs differ between processes; the first %d are reported" % (cross_diff, MAX_CROSS_REPORTS))
 
     # leaks: the driver names a window of 32 histories; every history of the window is examined alone
-    for seed_arg, (lo, hi), fill in leak_ranges[:4]:
+    for seed_arg, (lo, hi), cfg in leak_ranges[:4]:
         for idx in range(lo, hi + 1):
-            alarms.append(("leak", seed_arg, idx, fill, "LeakSanitizer report within histories %d..%d" % (lo, hi), "leak"))
+            alarms.append(("leak", seed_arg, idx, cfg, "LeakSanitizer report within histories %d..%d" % (lo, hi), "leak"))
 
     # ---- every alarm class is reduced to its minimal history by the driver; that is the key ------------------
     by_key = {}
@@ -227,8 +271,8 @@ def run(tier, args):
 
     shrunk_keys = {}
     for a, res in common.parallel_map(do_shrink, todo):
-        prelim, seed_arg, idx, fill, what, target = a
-        case = {"seed": seed_arg, "idx": idx, "fill": fill, "target": target, "argv": ["--seed", seed_arg, "--only", str(idx), "--shrink", "--target", target]}
+        prelim, seed_arg, idx, cfg, what, target = a
+        case = dict(cfg, seed=seed_arg, idx=idx, target=target, argv=["--seed", seed_arg, "--only", str(idx), "--shrink", "--target", target])
         if res is None or res["cls"] == "none":
             if prelim == "leak":
                 continue            # a history of the window that does not leak
@@ -250,6 +294,21 @@ def run(tier, args):
                       (res["what"] or what, what[:300], res["minimal"], note, len(by_key[prelim]), prelim), case)
 
     probes_by = dicts["probes_by"]
+    distinct_res = sorted(set(r for v in residues.values() for d in v.values() for r in d))
+    alignments_used, alignments_all = {}, {}
+    for k, (unal, allc) in dicts["aligns"].items():
+        fam, mode, al = k.split("/")
+        alignments_all.setdefault(fam + "/" + mode, []).append(int(al))
+        if unal:
+            alignments_used.setdefault(fam + "/" + mode, []).append(int(al))
+    for v in list(alignments_used.values()) + list(alignments_all.values()):
+        v.sort()
+    addr = dicts["addr"]
+    in_process_pairs = addr.get("wide_align_pairs_different_residue", 0) + addr.get("wide_align_twins_different_residue", 0)
+    if in_process_pairs == 0:
+        chk.note("address independence: no pair of compared runs of a program that pads to 32 / 64 bytes had its .text buffers on "
+                 "different residues mod 64 inside one process - this clause rests on the cross-process comparison only "
+                 "(residues seen: %s)" % distinct_res)
     chk.coverage.update({
         "evaluations": tot["histories"],
         "distinct_nontrivial": len(sigs),
@@ -274,6 +333,17 @@ def run(tier, args):
         "public_state_snapshots_compared": tot["state_checks"],
         "fresh_vs_fresh_rechecks_in_process": tot["nondet_checks"],
         "canonical_outputs_compared_across_processes": canon_compared,
+        "canonical_outputs_compared_across_allocator_configurations": canon_compared_other_alloc,
+        "align_calls_unaligned_offset_vs_all_by_family_mode_alignment": dicts["aligns"],
+        "embed_const_pool_unaligned_offset_vs_all_by_family_emitter_pool_alignment": dicts["pools"],
+        "compiler_new_const_by_family_scope_size": dicts["new_const"],
+        "alignments_used_at_unaligned_offsets": alignments_used,
+        "alignments_used": alignments_all,
+        "canonical_outputs_differing_across_processes": cross_diff,
+        "text_buffer_address_mod_64_of_compared_runs": {a: {w: {str(r): n for r, n in sorted(d.items())} for w, d in v.items()} for a, v in sorted(residues.items())},
+        "distinct_residues_mod_64": distinct_res,
+        "address_variation": dicts["addr"],
+        "by_allocator": by_alloc,
         "api_calls_failing_as_expected": tot["expected_api_errors"],
         "leak_checks": tot["leak_checks"],
         "alarms_raw": len(alarms),
@@ -291,6 +361,16 @@ def run(tier, args):
         "append probes (program generated behind earlier programs, many functions per Compiler) compare only position independent programs "
         "(no global constant pool, no absolute label addresses) from a 64-byte aligned marker on",
         "logger output itself is not compared (the property is about sections, labels and relocations)",
-        "glibc's MALLOC_PERTURB_ has no effect under ASan; the ASan allocator's fill bytes and the in-process heap noise take its place",
+        "glibc's MALLOC_PERTURB_ has no effect under ASan; the ASan allocator's fill bytes and the in-process heap noise take its place "
+        "(the plain build runs under glibc malloc with MALLOC_PERTURB_ set)",
+        "ASan places blocks of more than ~200 bytes on 64-byte boundaries, so under ASan the address of a section buffer only varies "
+        "between shards (max_redzone=16 / 32); in-process address variation (recycled vs fresh, fresh twins) comes from the plain "
+        "build of the same driver, which has no memory-error detection - its verdicts are output comparisons only",
+        "the driver steers a fresh control / twin onto another residue mod 64 than the run it is compared with by allocating and "
+        "keeping blocks (up to 3 regenerations); steering changes heap layout only, never the script",
     ]
-    return chk.finish()
+    rc = chk.finish()
+    if rc == 0 and len(distinct_res) < 2:
+        raise common.HarnessError("address independence not examined: every compared run had its .text buffer on the same residue "
+                                  "mod 64 (%s) - no variation of the buffer address was achieved" % distinct_res)
+    return rc
